@@ -144,7 +144,31 @@ func (s *Sink) AsWriter(kind string) io.Writer {
 	if kind == "wx" {
 		return SinkX{s}
 	}
+	if kind == "ws" {
+		return SinkS{s}
+	}
 	return s
+}
+
+// SinkS is a destination that is also an io.Seeker, as a write buffer that
+// embeds *os.File is (it overrides Write and inherits Seek): the position Seek
+// reports is that of the file UNDER the buffer - what has been flushed so far,
+// here whole blocks of 4096 bytes - plus the offset at which the section
+// handed to the writer starts in that file. It says nothing about the number
+// of bytes written through the io.Writer; a seek that would move the position
+// is refused. Nothing in the io.Writer contract lets a callee rely on it.
+type SinkS struct{ *Sink }
+
+func (s SinkS) Seek(off int64, whence int) (int64, error) {
+	flushed := int64(len(s.Sink.Data) - len(s.Sink.Data)%4096)
+	const sectionStart = 512
+	if whence == io.SeekCurrent && off == 0 {
+		return sectionStart + flushed, nil
+	}
+	if whence == io.SeekEnd && off == 0 {
+		return sectionStart + flushed, nil
+	}
+	return 0, errors.New("sim sink: seek not supported on a write buffer")
 }
 
 func (s *Sink) write(p []byte, op string) (int, error) {
@@ -269,6 +293,26 @@ func NewSource(data []byte, frag *Frag, fault *SrcFault) *Source {
 		s.rng = NewRng(frag.Seed)
 	}
 	return s
+}
+
+// Reopen makes the SAME source object (same identity for the code under test,
+// same name) serve other content from the start: a file handle that was kept
+// open while the file changed underneath it, or a bytes.Reader after Reset.
+func (s *Source) Reopen(data []byte) {
+	s.data = data
+	s.pos = 0
+	s.afterSeek = false
+	s.Stats = SrcStats{}
+	s.Req = nil
+}
+
+// SetFrag installs a fragmentation policy on an existing source.
+func (s *Source) SetFrag(frag *Frag) {
+	s.Frag = frag
+	s.rng = nil
+	if frag != nil {
+		s.rng = NewRng(frag.Seed)
+	}
 }
 
 func (s *Source) faulted() bool {
